@@ -102,6 +102,12 @@ struct Udt1 {
     b: Option<String>,
 }
 
+/// Rows the harness reads from one result at most (the server sends 3).
+const ROW_CAP: usize = 100_000;
+/// Results whose damaged counts announced more rows than ROW_CAP (not a violation:
+/// the rows are yielded lazily, nothing is allocated by the driver).
+static AMPLIFIED: std::sync::atomic::AtomicU64 = std::sync::atomic::AtomicU64::new(0);
+
 fn wide_typed_expected() -> Vec<WideTyped> {
     let row = |i: i64, nulls: bool| -> WideTyped {
         fn n<T>(nulls: bool, v: T) -> Option<T> {
@@ -787,12 +793,20 @@ async fn main(plan: Plan) -> Outcome {
                         let mut v = Vec::new();
                         for row in rr.rows::<WideTyped>().map_err(|e| e.to_string())? {
                             v.push(row.map_err(|e| e.to_string())?);
+                            if v.len() > ROW_CAP {
+                                AMPLIFIED.fetch_add(1, std::sync::atomic::Ordering::Relaxed);
+                                break;
+                            }
                         }
                         Ok(v)
                     })());
                     let mut v = Vec::new();
                     for row in rr.rows::<Row>().map_err(|e| e.to_string())? {
                         v.push(row.map_err(|e| e.to_string())?.columns);
+                        if v.len() > ROW_CAP {
+                            AMPLIFIED.fetch_add(1, std::sync::atomic::Ordering::Relaxed);
+                            break;
+                        }
                     }
                     Ok(v)
                 })();
@@ -834,6 +848,14 @@ async fn main(plan: Plan) -> Outcome {
             let mut rows = Vec::new();
             while let Some(r) = stream.next().await {
                 rows.push(r.map_err(|e| e.to_string())?.columns);
+                if rows.len() > ROW_CAP {
+                    // A damaged count can announce up to 2^31 rows; with a damaged column
+                    // count of 0 they are all "present" (zero bytes each) and the driver
+                    // yields them lazily without allocating. The harness must not collect
+                    // them (that allocation would be its own): it stops reading here.
+                    AMPLIFIED.fetch_add(1, std::sync::atomic::Ordering::Relaxed);
+                    break;
+                }
             }
             Ok::<_, String>(rows)
         };
@@ -982,6 +1004,7 @@ fn finish(mut out: Outcome, plan: &Plan) -> Outcome {
         (w.mutation_fired.clone(), w.frames_out)
     };
     out.nontrivial = fired.is_some() || plan.deep_nesting.is_some() || plan.custom_types.is_some();
+    out.count("row_count_amplification_capped", AMPLIFIED.load(std::sync::atomic::Ordering::Relaxed));
     if plan.custom_types.is_some() {
         out.count("custom_type_fuzz_runs", 1);
     }
